@@ -68,6 +68,9 @@ def race_run(seed, log):
     out = os.path.join(WORK, 'harness_race')
     p = subprocess.run(['go', 'build', '-race', '-tags', 'verif', '-o', out, '.'], cwd=os.path.join(ROOT, 'harness'), env=env,
                        stdout=subprocess.PIPE, stderr=subprocess.STDOUT, text=True, timeout=1800)
+    if p.returncode:   # without the repository's hooks (see build_all)
+        p = subprocess.run(['go', 'build', '-race', '-o', out, '.'], cwd=os.path.join(ROOT, 'harness'), env=env,
+                           stdout=subprocess.PIPE, stderr=subprocess.STDOUT, text=True, timeout=1800)
     if p.returncode:
         log.write('--- race build failed\n' + p.stdout[-2000:])
         return None, 0
